@@ -533,6 +533,10 @@ func (t *liveTree) runOp(op, tmp string) string {
 	case "dryrun.json":
 		w := mon.NewRecWriter()
 		o := Guard(func() error {
+			if len(t.shape.Kids)%2 == 1 {
+				// (the same options in another order: encode first)
+				return gtree.OutputFromRoot(w, t.root, gtree.WithEncodeJSON(), gtree.WithFileExtensions(c13Ext), gtree.WithDryRun())
+			}
 			return gtree.OutputFromRoot(w, t.root, gtree.WithDryRun(), gtree.WithEncodeJSON(), gtree.WithFileExtensions(c13Ext))
 		})
 		if treeHasInvalid(t.shape) {
